@@ -226,6 +226,7 @@ class FolderObservation(AbstractObservation, discriminator="folder"):
             self.default_observation["FILES"] = {i + 1: f.default_observation for i, f in enumerate(self.files)}
 
         self.cached_obs: Optional[ObsType] = self.default_observation
+        self._cached_for_folder: Optional[str] = None
 
     def observe(self, state: Dict) -> ObsType:
         """
@@ -241,6 +242,10 @@ class FolderObservation(AbstractObservation, discriminator="folder"):
             return self.default_observation
 
         if self.file_system_requires_scan:
+            if folder_state.get("uuid") != self._cached_for_folder:
+                # a different folder lives at this path now (deleted and created again): nothing has been scanned on it yet
+                self._cached_for_folder = folder_state.get("uuid")
+                self.cached_obs = self.default_observation
             if not folder_state["scanned_this_step"]:
                 health_status = self.cached_obs["health_status"]
             else:
